@@ -215,27 +215,32 @@ def run(chk):
             # Fisher matrix and Cramer-Rao bound (interior objects only)
             if st["fishers"]:
                 F = [coords.rmat(f) / np.outer(scale, scale) for f in st["fishers"]]
+                # the true point may be handed over as an object or as its variable vector: both forms name the same point
+                forms = (("object", obj), ("array", np.asarray(obj.to_var()).copy()))
                 for s in range(len(sizes)):
-                    got = np.asarray(qt.calc_fisher_matrix(s, obj))
-                    if got.shape != F[s].shape or not coords.close(got, F[s], 1e-7):
-                        bad("fisher", "calc_fisher_matrix(%d) differs from sum grad grad^T / p" % s)
-                        break
+                    for fname, arg in forms:
+                        got = np.asarray(qt.calc_fisher_matrix(s, arg))
+                        if got.shape != F[s].shape or not coords.close(got, F[s], 1e-7):
+                            bad("fisher" + ("" if fname == "object" else ":array"), "calc_fisher_matrix(%d) (true point given as %s) differs from sum grad grad^T / p" % (s, fname))
+                            break
                 N = max(ns)
                 w = [n_ / N for n_ in ns]
                 Ft = sum(wi * Fi for wi, Fi in zip(w, F))
-                got = np.asarray(qt.calc_fisher_matrix_total(obj, w))
-                if not coords.close(got, Ft, 1e-7):
-                    bad("fisher_total", "calc_fisher_matrix_total differs from the weighted sum")
+                for fname, arg in forms:
+                    got = np.asarray(qt.calc_fisher_matrix_total(arg, w))
+                    if not coords.close(got, Ft, 1e-7):
+                        bad("fisher_total" + ("" if fname == "object" else ":array"), "calc_fisher_matrix_total (true point given as %s) differs from the weighted sum" % fname)
                 if np.linalg.matrix_rank(Ft) == len(Ft):
                     inv = np.linalg.inv(Ft)
                     crb_var = np.trace(inv) / N
                     cells, M = obj_map(T, d, tomo["m"], tomo["para"])
                     # object-parametrisation bound: tr(M F^-1 M^T)/N  (library coordinates: M has entries 0, +-1)
                     crb_obj = np.trace(M @ inv @ M.T) / N
-                    g = float(qt.calc_cramer_rao_bound(obj, N, ns))
                     want = crb_obj if tomo["type"] == "povmt" else crb_var
-                    if abs(g - want) > 1e-6 * (1 + abs(want)):
-                        bad("cramer_rao", "calc_cramer_rao_bound=%r, textbook value %r" % (g, want))
+                    for fname, arg in forms:
+                        g = float(qt.calc_cramer_rao_bound(arg, N, ns))
+                        if abs(g - want) > 1e-6 * (1 + abs(want)):
+                            bad("cramer_rao" + ("" if fname == "object" else ":array"), "calc_cramer_rao_bound (true point given as %s)=%r, textbook value %r" % (fname, g, want))
                 chk.count(2 + len(sizes))
         except Exception as e:
             bad("exception", "%r" % e)
